@@ -91,6 +91,9 @@ def main():
             d = case["marked"].get("%d,%d" % (i, a))
             target = basens if (spec["inherit"] and a % 2 == 0) else ns
             target["a%d" % a] = will_reset_to(d) if d is not None else 0
+            if spec["inherit"] and spec.get("redeclare") and a % 2 == 1 and d is not None:
+                # the base class declares the same marker with another default: the subclass's wins
+                basens["a%d" % a] = will_reset_to(d + 1000)
 
         def mk(i):
             def execute(self):
